@@ -392,8 +392,16 @@ class Tr:
                     return self.with_binds(mk)
             raise Unsupported("assignment " + ast.dump(t)[:60])
         if isinstance(s, ast.If):
-            return self.with_binds(lambda: "(if %s then %s else %s)" % (
-                self.expr(s.test), self.block(s.body + rest), self.block(s.orelse + rest)))
+            def mk_if():
+                t = self.expr(s.test)
+                # a test that is decided by the typing assumptions (attribute presence, isinstance): the dead branch
+                # is not translated (it may not even be well typed, e.g. `return False` from an integer accessor)
+                if t == "true":
+                    return self.block(s.body + rest)
+                if t == "false":
+                    return self.block(s.orelse + rest)
+                return "(if %s then %s else %s)" % (t, self.block(s.body + rest), self.block(s.orelse + rest))
+            return self.with_binds(mk_if)
         if isinstance(s, ast.Try):
             # try: BODY except X: raise Y(...)   -- the handlers only re-label exceptions
             for h in s.handlers:
@@ -431,6 +439,8 @@ CMP_CALLS = {"__eq__": "eq", "__contains__": "contains"}   # callable from later
 # cmp = (self, val objects) -> bool, arith = (self, val int) -> ipo, setter = (self, arg int) -> ipo
 METHODS = [
     ("numhosts", "numhosts", "prop"),
+    ("__int__", "int", "prop"),
+    ("__index__", "index", "prop"),
     ("as_decimal_broadcast", "as_decimal_broadcast", "prop"),
     ("as_decimal_network_maxint", "as_decimal_network_maxint", "prop"),
     ("prefixlen", "set_prefixlen", "setter"),
